@@ -2,7 +2,7 @@
    bound BEFORE the work it protects, and below the bound the work is at most the bound. *)
 From Coq Require Import ZArith NArith List Bool Lia ZifyBool.
 From CA Require Import Model.Overlap Model.Cursor Model.Limits.
-From CA Require Model.BigIntOps Model.IncFns Model.Paths Model.Output.
+From CA Require Model.BigIntOps Model.IncFns Model.Paths.
 From CA Require Proofs.BitOpsP Proofs.IncFnsP Proofs.CursorP.
 Import ListNotations.
 Open Scope Z_scope.
@@ -380,8 +380,6 @@ Proof.
   - destruct (sz <=? n)%N eqn:Es; [discriminate|]. intros H. specialize (Hp H). repeat split; lia.
   - intros H. specialize (Hp H). repeat split; lia.
 Qed.
-Lemma asm_block_position_overflows : asm_block_positions (usize_max - 7) [8%N] = Panic.
-Proof. reflexivity. Qed.
 
 (* ------------------------------------------------------------------ #bankdef *)
 Lemma expect_usize_cases v : expect_usize v = if (v <? 0) || (U <? v) then Err else Ok (Z.to_N v).
@@ -533,11 +531,9 @@ Definition advanced (pos size : N) : Prop := Z.of_N pos + Z.of_N size <= U.
 Lemma advanced_iff pos size : advanced pos size <-> advance_by pos size <> Err.
 Proof. unfold advanced. rewrite advance_by_cases. destruct (_ <? _) eqn:E; split; intros; try lia; try congruence; discriminate. Qed.
 
-Lemma uadd_fits a b : Z.of_N a + Z.of_N b <= U -> uadd a b = Ok (a + b)%N.
-Proof. intros H. pose proof (uadd_spec a b) as Hs. destruct (uadd a b); try lia; try contradiction. destruct Hs as (-> & _). reflexivity. Qed.
-Lemma bank_output_no_panic mb b pos size wr : advanced pos size -> guard_bank_output mb b pos size wr <> Panic.
+Lemma bank_output_no_panic mb b pos size wr : guard_bank_output mb b pos size wr <> Panic.
 Proof.
-  unfold advanced, guard_bank_output, bindr. intros Ha.
+  unfold guard_bank_output, bindr.
   assert (Hw : match wr, bk_outp b with
     | true, Some off => match checked_add off pos with None => Err | Some p => match checked_add p size with None => Err
         | Some e => if Z.of_N e >? mb then Err else Ok e end end
@@ -546,7 +542,7 @@ Proof.
     destruct (checked_add off pos) as [p|]; [|discriminate]. destruct (checked_add p size); [|discriminate].
     destruct (_ >? mb); discriminate. }
   destruct (bk_size b) as [bsz|]; [|exact Hw].
-  rewrite uadd_fits by exact Ha. destruct (bsz <? pos + size)%N; [discriminate|exact Hw].
+  destruct (checked_add pos size) as [e|]; [|discriminate]. destruct (bsz <? e)%N; [discriminate|exact Hw].
 Qed.
 Lemma bank_output_work mb b pos size wr w : guard_bank_output mb b pos size wr = Ok w ->
   Z.of_N w <= Z.max 0 mb /\
@@ -565,44 +561,74 @@ Proof.
       intros H; inversion H; subst. split; [lia|]. intros _. exists off. split; [reflexivity|lia].
     - intros H; inversion H; subst. split; [lia|]. discriminate. }
   destruct (bk_size b) as [bsz|].
-  - spec_uadd pos size; try discriminate. destruct Ha as (-> & _). destruct (bsz <? pos + size)%N eqn:E; [discriminate|].
+  - spec_cadd pos size; [|discriminate]. destruct Hc as (-> & _). destruct (bsz <? pos + size)%N eqn:E; [discriminate|].
     intros H. apply Hw in H. destruct H. repeat split; try assumption. lia.
   - intros H. apply Hw in H. destruct H. repeat split; assumption.
 Qed.
-Lemma bank_output_above mb b pos size off : advanced pos size -> bk_outp b = Some off ->
+Lemma bank_output_above mb b pos size off : bk_outp b = Some off ->
   mb < Z.of_N off + Z.of_N pos + Z.of_N size -> guard_bank_output mb b pos size true = Err.
 Proof.
-  intros Ha Ho H. pose proof (bank_output_no_panic mb b pos size true Ha) as Hnp.
+  intros Ho H. pose proof (bank_output_no_panic mb b pos size true) as Hnp.
   destruct (guard_bank_output mb b pos size true) as [w| |] eqn:E; [|reflexivity|congruence].
   apply bank_output_work in E. destruct E as (E1 & E2 & _). destruct (E2 eq_refl) as (off' & Ho' & Hw & Hle).
   rewrite Ho in Ho'. inversion Ho'; subst. lia.
 Qed.
-(* written items (instructions, data): neither the range check nor the position computed after it can overflow *)
-Lemma place_written_no_panic mb b pos size : advanced pos size -> mb <= U -> place_item mb b pos size true <> Panic.
+(* a bank with a declared size: an item that does not fit -- also when position + size is not representable -- is an error *)
+Lemma bank_output_size_above mb b pos size wr bsz : bk_size b = Some bsz ->
+  Z.of_N bsz < Z.of_N pos + Z.of_N size -> guard_bank_output mb b pos size wr = Err.
 Proof.
-  intros Ha Hmb. unfold place_item, bindr.
-  pose proof (bank_output_no_panic mb b pos size true Ha) as Hnp.
-  destruct (guard_bank_output mb b pos size true) as [w| |] eqn:E; try congruence; try discriminate.
+  intros Hs H. unfold guard_bank_output, bindr. rewrite Hs. spec_cadd pos size; [|reflexivity].
+  destruct Hc as (-> & _). replace (bsz <? pos + size)%N with true by lia. reflexivity.
+Qed.
+(* placing an item: the range check, then the output position; written items unwrap it AFTER the range check proved it
+   representable; labels and #res never unwrap it.  No case overflows or panics. *)
+Lemma place_item_no_panic mb b pos size wr : mb <= U -> place_item mb b pos size wr <> Panic.
+Proof.
+  intros Hmb. unfold place_item, bindr.
+  pose proof (bank_output_no_panic mb b pos size wr) as Hnp.
+  destruct (guard_bank_output mb b pos size wr) as [w| |] eqn:E; try congruence; try discriminate.
+  destruct wr; [|discriminate].
   apply bank_output_work in E. destruct E as (E1 & E2 & _). destruct (E2 eq_refl) as (off & Ho & Hw & Hle).
-  unfold get_output_position. rewrite Ho. spec_cadd off pos; [discriminate|]. lia.
+  unfold output_position. rewrite Ho. spec_cadd off pos; [discriminate|]. lia.
 Qed.
 Lemma place_written_work mb b pos size w : place_item mb b pos size true = Ok w -> Z.of_N w <= Z.max 0 mb.
 Proof.
   unfold place_item, bindr. destruct (guard_bank_output mb b pos size true) as [w'| |] eqn:E; try discriminate.
-  apply bank_output_work in E. destruct (get_output_position b pos) as [p| |]; try discriminate.
+  apply bank_output_work in E. destruct (output_position b pos); try discriminate.
   intros H; inversion H; subst. tauto.
 Qed.
-(* labels and #res: check_bank_output does not look at outp + position, get_output_position adds them unchecked (F61) *)
-Lemma place_unwritten_overflows mb :
-  exists b pos, advanced pos 0 /\ bk_unit b <> 0%N /\ fits (bk_outp b) /\ place_item mb b pos 0 false = Panic.
+(* the output position of a label / #res is simply absent when outp + position is not representable *)
+Lemma output_position_spec b pos :
+  match output_position b pos with
+  | Some p => exists off, bk_outp b = Some off /\ p = (off + pos)%N /\ Z.of_N p <= U
+  | None => bk_outp b = None \/ exists off, bk_outp b = Some off /\ U < Z.of_N off + Z.of_N pos
+  end.
 Proof.
-  exists (mkBank 0 8 None None (Some usize_max) false), 8%N.
-  split; [unfold advanced, U; cbn; lia|]. split; [discriminate|]. split; [cbn; unfold U; lia|]. reflexivity.
+  unfold output_position. destruct (bk_outp b) as [off|]; [|left; reflexivity].
+  spec_cadd off pos.
+  - destruct Hc as (-> & Hc). exists off. repeat split; lia.
+  - right. exists off. split; [reflexivity|lia].
 Qed.
-(* check_bank_overlap (F48, also a C06 finding) *)
-Lemma bank_overlap_overflows :
-  guard_bank_overlap (mkBank 0 8 None (Some 8%N) (Some usize_max) false) (mkBank 0 8 None (Some 8%N) (Some 0%N) false) = Panic.
-Proof. reflexivity. Qed.
+(* check_bank_overlap: total; a window whose end is not representable ends after everything *)
+Lemma bank_overlap_no_panic b1 b2 : guard_bank_overlap b1 b2 <> Panic.
+Proof. unfold guard_bank_overlap. destruct (bk_outp b1), (bk_outp b2); discriminate. Qed.
+Lemma ends_after_spec outp size other : Z.of_N other <= U ->
+  ends_after outp size other = (Z.of_N other <? Z.of_N outp + Z.of_N size).
+Proof. intros Ho. unfold ends_after. spec_cadd outp size; [destruct Hc as (-> & _)|]; lia. Qed.
+(* the asm block's inner position: checked like every other advance *)
+Lemma asm_block_positions_no_panic pos sizes : asm_block_positions pos sizes <> Panic.
+Proof.
+  revert pos. induction sizes as [|s r IH]; intros pos; cbn [asm_block_positions]; [discriminate|].
+  unfold bindr. rewrite advance_by_cases. destruct (_ <? _); [discriminate|apply IH].
+Qed.
+Lemma asm_block_positions_fits pos sizes p : Z.of_N pos <= U -> asm_block_positions pos sizes = Ok p ->
+  Z.of_N p = Z.of_N pos + Z.of_N (fold_right N.add 0%N sizes) /\ Z.of_N p <= U.
+Proof.
+  revert pos. induction sizes as [|s r IH]; intros pos Hp H; cbn [asm_block_positions fold_right] in *.
+  - inversion H; subst. lia.
+  - unfold bindr in H. rewrite advance_by_cases in H. destruct (_ <? _) eqn:E; [discriminate|].
+    apply IH in H; lia.
+Qed.
 
 (* ------------------------------------------------------------------ inclusion ranges *)
 Lemma incbin_no_panic bytes a : Z.of_nat (length bytes) <= IncFnsP.isize_max -> guard_incbin bytes a <> Panic.
